@@ -24,7 +24,7 @@ inline std::string gen_name(Rng &r, long serial, int hostile_pct = 35) {
     case 7: return "a ";
     case 8: return "\xc3\xa4-nfc";               // a-umlaut, NFC
     case 9: return "a\xcc\x88-nfc";              // a + combining diaeresis (NFD of the same glyph)
-    case 10: return std::string(300 + r.u(50), 'L') + str(serial % 3);
+    case 10: return r.chance(0.5) ? std::string(300 + r.u(50), 'L') + str(serial % 3) : "long-" + std::string(60 + r.u(70), (char)('a' + r.u(26))) + str(serial % 5);
     case 11: return "p%c\\q\"'`$";
     case 12: return "t";                        // equal to the type string used everywhere
     default: return "n" + str(r.u(6));            // likely collides with an existing plain name
@@ -121,8 +121,14 @@ struct Graph {
                 case 10: { what = "createFeature"; c.op(what); DataArray a; if (!anyArray(b, a)) break; LinkType lt = r.pick(std::vector<LinkType>{LinkType::Tagged, LinkType::Untagged, LinkType::Indexed}); Tag t; MultiTag m; if (r.chance(0.5) && anyTag(b, t)) { if (t.featureCount() < 4) t.createFeature(a, lt); } else if (anyMTag(b, m)) { if (m.featureCount() < 4) m.createFeature(a, lt); } break; }
                 }
             } else if (kind == 1) {
-                int k = (int)r.u(9);
+                int k = (int)r.u(15);
                 switch (k) {
+                case 9: { what = "feature-linktype"; c.op(what); Tag t; MultiTag m; LinkType lt = r.pick(std::vector<LinkType>{LinkType::Tagged, LinkType::Untagged, LinkType::Indexed}); if (hb && r.chance(0.5) && anyTag(b, t) && t.featureCount()) t.getFeature(r.u(t.featureCount())).linkType(lt); else if (hb && anyMTag(b, m) && m.featureCount()) m.getFeature((size_t)r.u(m.featureCount())).linkType(lt); break; }
+                case 10: { what = "feature-data"; c.op(what); Tag t; DataArray a; if (hb && anyTag(b, t) && t.featureCount() && anyArray(b, a)) { Feature ft = t.getFeature(r.u(t.featureCount())); if (r.chance(0.5)) ft.data(a); else ft.data(a.name()); } break; }
+                case 11: { what = "tag-units"; c.op(what); Tag t; MultiTag m; if (hb && r.chance(0.5) && anyTag(b, t)) { if (r.chance(0.3)) t.units(nix::none); else t.units(std::vector<std::string>(t.position().size(), r.chance(0.5) ? "s" : "mV")); } else if (hb && anyMTag(b, m)) { if (r.chance(0.3)) m.units(nix::none); else m.units({r.chance(0.5) ? "us" : "kHz"}); } break; }
+                case 12: { what = "entity-attrs"; c.op(what); Source so; Group g; DataFrame df; Tag t; int w = (int)r.u(4); if (!hb) break; if (w == 0 && anySource(b, so)) { if (r.chance(0.5)) so.definition("sodef " + str(r.u(5))); else so.type("stype " + str(r.u(3))); } else if (w == 1 && anyGroup(b, g)) { if (r.chance(0.5)) g.definition("gdef"); else g.definition(nix::none); } else if (w == 2 && anyFrame(b, df)) df.definition("dfdef " + str(r.u(4))); else if (w == 3 && anyTag(b, t)) { if (r.chance(0.5)) t.type("ttype " + str(r.u(3))); else t.definition("tdef"); } break; }
+                case 13: { what = "frame-write"; c.op(what); DataFrame df; if (hb && anyFrame(b, df) && df.rows()) { std::vector<Variant> row; for (auto &cd : df.columns()) row.push_back(gen_values(cd.dtype, 1)[0]); df.writeRow(r.u(df.rows()), row); } break; }
+                case 14: { what = "array-extent"; c.op(what); DataArray a; if (hb && anyArray(b, a)) { NDSize e = a.dataExtent(); if (e.size()) { e[r.u(e.size())] = 1 + r.u(6); a.dataExtent(e); } } break; }
                 case 0: { what = "definition"; c.op(what); if (hb) { if (r.chance(0.3)) b.definition(nix::none); else b.definition("def " + str(r.u(9))); } break; }
                 case 1: { what = "array-attrs"; c.op(what); DataArray a; if (hb && anyArray(b, a)) { int q = (int)r.u(6); if (q == 0) a.label("lab" + str(r.u(4))); else if (q == 1) a.unit(r.chance(0.5) ? "mV" : "uA"); else if (q == 2) a.expansionOrigin((double)r.range(-3, 3)); else if (q == 3) a.polynomCoefficients({1.0, (double)r.range(1, 4)}); else if (q == 4) a.label(nix::none); else a.type("changed type"); } break; }
                 case 2: { what = "tag-attrs"; c.op(what); Tag t; if (hb && anyTag(b, t)) { if (r.chance(0.5)) { std::vector<double> p = t.position(); for (auto &x : p) x += 0.5; t.position(p); } else t.extent(nix::none); } break; }
@@ -137,7 +143,7 @@ struct Graph {
                 case 8: { what = "type"; c.op(what); Section s; if (anySection(s)) s.type("type " + str(r.u(4))); break; }
                 }
             } else if (kind == 2) {
-                int k = (int)r.u(8); if (!hb) { c.op("link-skip"); return; }
+                int k = (int)r.u(10); if (!hb) { c.op("link-skip"); return; }
                 switch (k) {
                 case 0: { what = "metadata"; c.op(what); Section s; if (!anySection(s)) break; int w = (int)r.u(7); DataArray a; Tag t; MultiTag m; Group g; Source so; DataFrame df;
                     if (w == 0) b.metadata(s); else if (w == 1 && anyArray(b, a)) { if (r.chance(0.5)) a.metadata(s); else a.metadata(s.id()); } else if (w == 2 && anyTag(b, t)) t.metadata(s); else if (w == 3 && anyMTag(b, m)) m.metadata(s); else if (w == 4 && anyGroup(b, g)) g.metadata(s); else if (w == 5 && anySource(b, so)) so.metadata(s); else if (w == 6 && anyFrame(b, df)) df.metadata(s); break; }
@@ -149,10 +155,12 @@ struct Graph {
                     if (w == 0 && anyArray(b, a)) g.addDataArray(a); else if (w == 1 && anyTag(b, t)) g.addTag(t); else if (w == 2 && anyMTag(b, m)) g.addMultiTag(m); else if (w == 3 && anyFrame(b, df)) g.addDataFrame(df); break; }
                 case 5: { what = "mtag-extents"; c.op(what); MultiTag m; if (!anyMTag(b, m)) break; DataArray p = m.positions(); if (!p) break; DataArray ea = b.createDataArray(name(), "t", DataType::Double, p.dataExtent()); m.extents(ea); break; }
                 case 6: { what = "mtag-positions"; c.op(what); MultiTag m; DataArray a; if (anyMTag(b, m) && anyArray(b, a) && !m.extents()) m.positions(a); break; }
+                case 8: { what = "group-set-members"; c.op(what); Group g; if (!anyGroup(b, g)) break; std::vector<DataArray> v; ndsize_t n = b.dataArrayCount(); for (ndsize_t i = 0; i < n && v.size() < 4; i++) if (r.chance(0.5)) v.push_back(b.getDataArray(i)); for (size_t i = v.size(); i > 1; i--) std::swap(v[i - 1], v[r.u(i)]); g.dataArrays(v); break; }
+                case 9: { what = "replace-sources"; c.op(what); DataArray a; if (!anyArray(b, a)) break; std::vector<Source> v; ndsize_t n = b.sourceCount(); for (ndsize_t i = 0; i < n && v.size() < 3; i++) if (r.chance(0.5)) v.push_back(b.getSource(i)); for (size_t i = v.size(); i > 1; i--) std::swap(v[i - 1], v[r.u(i)]); a.sources(v); break; }
                 case 7: { what = "replace-references"; c.op(what); Tag t; if (!anyTag(b, t)) break; std::vector<DataArray> v; ndsize_t n = b.dataArrayCount(); for (ndsize_t i = 0; i < n && v.size() < 3; i++) if (r.chance(0.4)) v.push_back(b.getDataArray(i)); t.references(v); break; }
                 }
             } else if (kind == 3) {
-                int k = (int)r.u(7); if (!hb) { c.op("unlink-skip"); return; }
+                int k = (int)r.u(10); if (!hb) { c.op("unlink-skip"); return; }
                 switch (k) {
                 case 0: { what = "metadata-none"; c.op(what); DataArray a; if (r.chance(0.3)) b.metadata(nix::none); else if (anyArray(b, a)) a.metadata(nix::none); break; }
                 case 1: { what = "link-none"; c.op(what); Section s; if (anySection(s)) s.link(nix::none); break; }
@@ -160,6 +168,9 @@ struct Graph {
                 case 3: { what = "removeReference"; c.op(what); Tag t; if (anyTag(b, t) && t.referenceCount()) t.removeReference(t.getReference(r.u(t.referenceCount()))); break; }
                 case 4: { what = "group-remove"; c.op(what); Group g; if (anyGroup(b, g) && g.dataArrayCount()) g.removeDataArray(g.getDataArray((size_t)r.u(g.dataArrayCount()))); break; }
                 case 5: { what = "deleteFeature"; c.op(what); Tag t; if (anyTag(b, t) && t.featureCount()) t.deleteFeature(t.getFeature(r.u(t.featureCount()))); break; }
+                case 7: { what = "group-remove-other"; c.op(what); Group g; if (!anyGroup(b, g)) break; if (g.tagCount() && r.chance(0.5)) g.removeTag(g.getTag((size_t)r.u(g.tagCount()))); else if (g.multiTagCount()) g.removeMultiTag(g.getMultiTag((size_t)r.u(g.multiTagCount()))); else if (g.dataFrameCount()) g.removeDataFrame(g.getDataFrame(r.u(g.dataFrameCount()))); break; }
+                case 8: { what = "mtag-extents-none"; c.op(what); MultiTag m; if (anyMTag(b, m)) m.extents(nix::none); break; }
+                case 9: { what = "mtag-deleteFeature"; c.op(what); MultiTag m; if (anyMTag(b, m) && m.featureCount()) m.deleteFeature(m.getFeature((size_t)r.u(m.featureCount()))); break; }
                 case 6: { what = "deleteDimensions"; c.op(what); DataArray a; if (anyArray(b, a)) a.deleteDimensions(); break; }
                 }
             } else {
